@@ -33,6 +33,8 @@ pub enum BOp {
     Call { method: String, arg_seed: u64, explicit_rid: bool, ip_kind: u8, ip_k: usize },
     /// take the module and continue from it with Builder::new_from_module
     Continue,
+    /// abandon the builder and continue from an otherwise empty module whose header bound is this value
+    ContinueFromBound(u32),
 }
 
 #[derive(Clone, Debug, PartialEq)]
@@ -175,6 +177,9 @@ pub struct Drv {
     pub all_ids: Vec<u32>,
     pub version: Option<(u8, u8)>,
     pub continued_from_bound: Option<u32>,
+    /// ids reserved with id() for later use as EXPLICIT result ids (never used as operands before they
+    /// are defined): makes definitions appear out of numeric id order
+    pub reserved: Vec<u32>,
 }
 
 impl Drv {
@@ -188,6 +193,7 @@ impl Drv {
             all_ids: vec![],
             version: None,
             continued_from_bound: None,
+            reserved: vec![],
         };
         // a few ids nothing defines: used as switch selectors and as "unknown" result types
         for _ in 0..3 {
@@ -209,11 +215,21 @@ impl Drv {
         module_to_model(self.b.module_ref())
     }
 
-    fn any_id(&self, rng: &mut Rng) -> u32 {
+    fn any_id(&mut self, rng: &mut Rng) -> u32 {
+        self.ensure_untyped();
         if !self.defined.is_empty() && rng.chance(3, 4) {
             *rng.pick(&self.defined)
         } else {
             *rng.pick(&self.untyped)
+        }
+    }
+
+    /// the pool of never-defined ids must not be empty (argument generation draws from it)
+    pub fn ensure_untyped(&mut self) {
+        if self.untyped.is_empty() {
+            let id = self.b.id();
+            self.untyped.push(id);
+            self.all_ids.push(id);
         }
     }
 
@@ -361,6 +377,25 @@ impl Drv {
                     Ret::Unit
                 })
             }
+            BOp::ContinueFromBound(bound) => {
+                rep.kind = CallKind::Continue;
+                rep.what = format!("Builder::new_from_module(empty module with header bound {})", bound);
+                let mut m = rspirv::dr::Module::new();
+                m.header = Some(rspirv::dr::ModuleHeader::new(*bound));
+                let bound = *bound;
+                guarded(|| Builder::new_from_module(m)).map(|b| {
+                    self.b = b;
+                    self.continued_from_bound = Some(bound);
+                    // ids of the abandoned builder mean nothing in the new module
+                    self.defined.clear();
+                    self.untyped.clear();
+                    self.one_word_types.clear();
+                    self.two_word_types.clear();
+                    self.all_ids.clear();
+                    self.reserved.clear();
+                    Ret::Unit
+                })
+            }
             BOp::Call { method, arg_seed, explicit_rid, ip_kind, ip_k } => {
                 rep.kind = CallKind::Method;
                 let bs = bindings();
@@ -372,6 +407,7 @@ impl Drv {
                     }
                     Some(bi) => {
                         let bind = bs.all[*bi].clone();
+                        self.ensure_untyped();
                         seed_rng = Rng::new(*arg_seed);
                         let ip = if bind.insert { self.ip(*ip_kind, *ip_k, pre_sel) } else { Ip::End };
                         rep.ip = ip;
@@ -442,7 +478,12 @@ impl Drv {
         if let Some(id) = rep.ret.id() {
             if rep.kind == CallKind::Id {
                 rep.fresh_id = Some(id);
-                self.untyped.push(id);
+                // alternate: reserved for a later explicit result id / never defined at all
+                if id % 2 == 0 {
+                    self.reserved.push(id);
+                } else {
+                    self.untyped.push(id);
+                }
             }
             self.all_ids.push(id);
             if let Some(w) = &mut rep.intended {
@@ -484,8 +525,12 @@ impl Drv {
         rep
     }
 
-    /// a fresh id from the builder to be passed as an explicit result id
+    /// an id to be passed as an explicit result id: one reserved earlier (if any, half of the time)
+    /// or a fresh one from the builder
     fn fresh_untracked(&mut self) -> u32 {
+        if !self.reserved.is_empty() && (self.all_ids.len() + self.reserved.len()) % 2 == 0 {
+            return self.reserved.remove(0);
+        }
         let id = self.b.id();
         self.all_ids.push(id);
         id
